@@ -72,6 +72,12 @@ func (g *Gateway) Query(ctx context.Context, input *graphql.QueryInput, receiver
 		return err
 	}
 
+	// the resolvers below only look at literal argument values
+	querySelection, err = resolveArgumentVariables(querySelection, input.Variables)
+	if err != nil {
+		return err
+	}
+
 	for _, field := range graphql.SelectedFields(querySelection) {
 		switch field.Name {
 		case "__typename":
@@ -227,6 +233,53 @@ func includedSelections(selectionSet ast.SelectionSet, fragments ast.FragmentDef
 			}
 			result = append(result, &ast.InlineFragment{TypeCondition: definition.TypeCondition, SelectionSet: subSelection})
 		}
+	}
+	return result, nil
+}
+
+// resolveArgumentVariables returns a copy of the selection set in which the arguments that refer
+// to variables hold the values of those variables. The original selection set is left untouched
+// since it belongs to a query plan that can be shared between requests.
+func resolveArgumentVariables(selectionSet ast.SelectionSet, variables map[string]interface{}) (ast.SelectionSet, error) {
+	result := make(ast.SelectionSet, 0, len(selectionSet))
+	for _, selection := range selectionSet {
+		field, ok := selection.(*ast.Field)
+		if !ok {
+			result = append(result, selection)
+			continue
+		}
+
+		fieldCopy := *field
+		fieldCopy.Arguments = make(ast.ArgumentList, 0, len(field.Arguments))
+		for _, arg := range field.Arguments {
+			argCopy := *arg
+			if arg.Value != nil && arg.Value.Kind == ast.Variable {
+				value, err := arg.Value.Value(variables)
+				if err != nil {
+					return nil, err
+				}
+				switch value := value.(type) {
+				case string:
+					argCopy.Value = &ast.Value{Kind: ast.StringValue, Raw: value, Position: arg.Value.Position}
+				case bool:
+					raw := "false"
+					if value {
+						raw = "true"
+					}
+					argCopy.Value = &ast.Value{Kind: ast.BooleanValue, Raw: raw, Position: arg.Value.Position}
+				case nil:
+					argCopy.Value = &ast.Value{Kind: ast.NullValue, Raw: "null", Position: arg.Value.Position}
+				}
+			}
+			fieldCopy.Arguments = append(fieldCopy.Arguments, &argCopy)
+		}
+
+		subSelection, err := resolveArgumentVariables(field.SelectionSet, variables)
+		if err != nil {
+			return nil, err
+		}
+		fieldCopy.SelectionSet = subSelection
+		result = append(result, &fieldCopy)
 	}
 	return result, nil
 }
